@@ -61,6 +61,28 @@ var c20JSONBodies = []string{"", "{", "[]", "null", "{}", `{"Statement":null}`, 
 	`{"Statement":[{"Effect":"Allow","Principal":{},"Action":[],"Resource":[]}]}`, `{"Statement":[{"Effect":"Allow","Principal":{"AWS":null},"Action":"s3:*","Resource":"arn:aws:s3:::"}]}`,
 	`{"Statement":[{"Effect":1,"Principal":2,"Action":3,"Resource":4}]}`, strings.Repeat("[", 5000), `{"Statement":[{"Effect":"Allow","Principal":"*","Action":"s3:*","Resource":"*"}]}`, "\xff\xfe"}
 
+// every field of a valid policy statement replaced by every degenerate JSON value of a small class (an element
+// that is empty, null or of another type, alone and beside a valid element)
+func init() {
+	valid := map[string]string{"Effect": `"Allow"`, "Principal": `"*"`, "Action": `"s3:GetObject"`, "Resource": `"arn:aws:s3:::bk-main/*"`}
+	order := []string{"Effect", "Principal", "Action", "Resource"}
+	for _, f := range order {
+		v := valid[f]
+		for _, sub := range []string{`""`, `[""]`, `[null]`, `[` + v + `,""]`, `["",` + v + `]`, `[` + v + `,null]`, `[[]]`, `[{}]`, `[1]`, `[true]`, `{"AWS":[""]}`, `{"AWS":[null]}`, `{"AWS":[` + v + `,""]}`, `{"AWS":{}}`,
+			`"s3:"`, `":"`, `"*"`, `"**"`, `"s3:*x"`, `"arn:aws:s3:::"`, `"arn:aws:s3:::/"`, `"arn:aws:s3:::*"`, `"arn:aws:s3:::bk-main/"`, `true`, `1.5`, `"` + strings.Repeat("s3:Get", 2000) + `*"`} {
+			var parts []string
+			for _, g := range order {
+				val := valid[g]
+				if g == f {
+					val = sub
+				}
+				parts = append(parts, `"`+g+`":`+val)
+			}
+			c20JSONBodies = append(c20JSONBodies, `{"Statement":[{`+strings.Join(parts, ",")+`}]}`)
+		}
+	}
+}
+
 var c20CopySources = []string{"", "/", "bk-main", "bk-main/", "/bk-main/obj1", "bk-main/obj1?versionId=", "bk-main/obj1?versionId=zzz", "?versionId=x", "//", "%", "%zz", "bk-main/../bk-other/secret", "nosuchbucket/k", "bk-main/nosuchkey", strings.Repeat("a/", 600), "bk-main/obj1?x=y", "bk-main%2Fobj1"}
 
 // c20ScopeParts replace the region of the credential scope (quoted back in SignatureDoesNotMatch-style errors).
